@@ -321,9 +321,17 @@ Definition end_message (s : stream) : stream * sres (list frame) :=
   end.
 
 (* ---- crypto mode toggles -------------------------------------------- *)
+(* prepareCryptoForSecret / restoreCryptoAfterSecret (after /repo 0140d4f): encryption is switched on
+   for one secret field only when a key exists and it is off, and [before_secret] - the code's
+   cryptoToggledForSecret - remembers that it was; when there is nothing to toggle no stream state
+   is written at all; restore undoes exactly a toggle that happened *)
 Definition prepare_secret (s : stream) : stream :=
-  upd_enc s (match key s with Some _ => true | None => encrypted s end) (encrypted s).
-Definition restore_secret (s : stream) : stream := upd_enc s (before_secret s) (before_secret s).
+  match key s with
+  | Some _ => if encrypted s then s else upd_enc s true true
+  | None => s
+  end.
+Definition restore_secret (s : stream) : stream :=
+  if before_secret s then upd_enc s false false else s.
 Definition secret_is_noop (s : stream) : bool :=
   match key s with None => true | Some _ => encrypted s end.
 
